@@ -282,7 +282,9 @@ func runC15(p *Prog, r *Report, tier string) {
 					top = top.Parent()
 				}
 				recv := top.Signature.Recv()
-				if recv == nil || !isNamed(recv.Type(), modPath+"/x/cctp/keeper", "Keeper") {
+				if p.newHelper(top) {
+					// a new helper's accesses count for the known functions that call it (below)
+				} else if recv == nil || !isNamed(recv.Type(), modPath+"/x/cctp/keeper", "Keeper") {
 					outside = append(outside, funcName(fn)+" @"+p.instrPos(e.In))
 				}
 			}
@@ -300,6 +302,16 @@ func runC15(p *Prog, r *Report, tier string) {
 			switch e.Kind {
 			case "R", "W", "D", "ITER", "PAGE":
 				regions[e.Region] = true
+				if e.Inner != nil {
+					top := fn
+					for top.Parent() != nil {
+						top = top.Parent()
+					}
+					recv := top.Signature.Recv()
+					if recv == nil || !isNamed(recv.Type(), modPath+"/x/cctp/keeper", "Keeper") {
+						outside = append(outside, funcName(fn)+" (through a new helper) @"+p.instrPos(e.Inner))
+					}
+				}
 			}
 		}
 	}
